@@ -445,3 +445,184 @@ Section Equiv.
     equiv (apply_blocks HO s0 bs) (apply_blocks HO s bs).
   Proof. rewrite spec_undo_depth. apply equiv_blocks. Qed.
 End Equiv.
+
+(** * Part 3 (C14): canonical proofs depend only on the set of targets *)
+Section Canon.
+  Variable H : Type.
+  Variable HO : ops H.
+  Notation node := (node H).
+
+  Definition same_set {A} (l l' : list A) : Prop := forall x, In x l <-> In x l'.
+
+  Lemma perm_same_set {A} (l l' : list A) : Permutation l l' -> same_set l l'.
+  Proof.
+    intros P x. split; apply Permutation_in; [exact P|apply Permutation_sym, P].
+  Qed.
+
+  Lemma known_set_ext (lay ts ts' : list node) :
+    same_set ts ts' -> same_set (known_set lay ts) (known_set lay ts').
+  Proof.
+    intros Hs c. rewrite !known_set_In.
+    split; intros (x & Hx & Hc); exists x; (split; [apply Hs, Hx|exact Hc]).
+  Qed.
+
+  Theorem proof_coords_ext (lay ts ts' : list node) :
+    same_set ts ts' -> same_set (proof_coords lay ts) (proof_coords lay ts').
+  Proof.
+    intros Hs c. rewrite !proof_coords_In. pose proof (known_set_ext lay ts ts' Hs) as HK.
+    split; intros (d & Hd & Hr & Hn & Hc); exists d;
+      (split; [apply HK, Hd|]; split; [exact Hr|]; split; [|exact Hc]);
+      intros Hin; apply Hn, HK, Hin.
+  Qed.
+
+  Theorem proof_coords_perm (lay ts ts' : list node) :
+    Permutation ts ts' -> forall c, In c (proof_coords lay ts) <-> In c (proof_coords lay ts').
+  Proof. intros P. apply proof_coords_ext, perm_same_set, P. Qed.
+
+  Lemma NoDup_map_inj_on {A B} (f : A -> B) (l : list A) :
+    NoDup l -> (forall x y, In x l -> In y l -> f x = f y -> x = y) -> NoDup (map f l).
+  Proof.
+    induction l as [|a l IH]; intros Hn Hi; cbn [map]; [constructor|].
+    inversion Hn as [|a' l' Hnin Hnd]; subst. constructor.
+    - intros Hin. apply in_map_iff in Hin as (y & Hy & Hyl).
+      apply Hnin. rewrite (Hi a y); [exact Hyl|left; reflexivity|right; exact Hyl|symmetry; exact Hy].
+    - apply IH; [exact Hnd|]. intros x y Hx Hy. apply Hi; right; assumption.
+  Qed.
+
+  (** positions of a coordinate list pairwise distinct *)
+  Definition pos_inj_on (rows : nat) (l : list (nat * N)) : Prop :=
+    forall c d, In c l -> In d l ->
+                pos rows (fst c) (snd c) = pos rows (fst d) (snd d) -> c = d.
+
+  Theorem sort_coords_ext rows (l l' : list (nat * N)) :
+    NoDup l -> NoDup l' -> pos_inj_on rows l -> same_set l l' ->
+    sort_coords rows l = sort_coords rows l'.
+  Proof.
+    intros N1 N2 Hi Hs. unfold sort_coords. apply sortK_set_unique.
+    - rewrite map_map. cbn [fst]. apply NoDup_map_inj_on; assumption.
+    - rewrite map_map. cbn [fst]. apply NoDup_map_inj_on; [exact N2|].
+      intros c d Hc Hd. apply Hi; apply Hs; assumption.
+    - intros e. rewrite !in_map_iff.
+      split; intros (c & Hc & Hin); exists c; (split; [exact Hc|apply Hs, Hin]).
+  Qed.
+
+  (** the canonical proof is a function of the target SET *)
+  Theorem canon_unique_set rows (lay ts ts' : list node) :
+    same_set ts ts' -> pos_inj_on rows (proof_coords lay ts) ->
+    canon_proof_pos rows lay ts = canon_proof_pos rows lay ts' /\
+    canon_proof_hashes HO rows lay ts = canon_proof_hashes HO rows lay ts'.
+  Proof.
+    intros Hs Hi. unfold canon_proof_pos, canon_proof_hashes.
+    rewrite (sort_coords_ext rows (proof_coords lay ts) (proof_coords lay ts')).
+    - split; reflexivity.
+    - apply proof_coords_NoDup.
+    - apply proof_coords_NoDup.
+    - exact Hi.
+    - apply proof_coords_ext, Hs.
+  Qed.
+
+  Theorem canon_unique rows (lay ts ts' : list node) :
+    Permutation ts ts' -> pos_inj_on rows (proof_coords lay ts) ->
+    canon_proof_pos rows lay ts = canon_proof_pos rows lay ts' /\
+    canon_proof_hashes HO rows lay ts = canon_proof_hashes HO rows lay ts'.
+  Proof. intros P. apply canon_unique_set, perm_same_set, P. Qed.
+
+  (** ** cached proofs *)
+  Hypothesis HOK : ops_ok HO.
+
+  Lemma find_leaves_cons lay h t ts :
+    find_leaves HO lay (h :: t) = Some ts <->
+    exists x xs, find_leaf HO lay h = Some x /\ find_leaves HO lay t = Some xs /\ ts = x :: xs.
+  Proof.
+    cbn [find_leaves]. destruct (find_leaf HO lay h) as [x|]; [|split; [discriminate|]].
+    - destruct (find_leaves HO lay t) as [xs|]; [|split; [discriminate|]].
+      + split; [intros [= <-]; eauto|]. intros (x' & xs' & [= <-] & [= <-] & ->). reflexivity.
+      + intros (x' & xs' & _ & E & _). discriminate.
+    - intros (x' & xs' & E & _). discriminate.
+  Qed.
+
+  Lemma find_leaves_hashes lay : forall hs ts,
+    find_leaves HO lay hs = Some ts -> map (@nhash H) ts = hs.
+  Proof.
+    induction hs as [|h hs IH]; intros ts Hf; [injection Hf as <-; reflexivity|].
+    apply find_leaves_cons in Hf as (x & xs & Hx & Hxs & ->). cbn [map].
+    rewrite (IH xs Hxs). destruct (find_leaf_spec H HO HOK _ _ _ Hx) as (_ & _ & ->). reflexivity.
+  Qed.
+
+  Lemma find_leaves_In lay : forall hs ts, find_leaves HO lay hs = Some ts ->
+    forall x, In x ts <-> exists h, In h hs /\ find_leaf HO lay h = Some x.
+  Proof.
+    induction hs as [|h hs IH]; intros ts Hf x.
+    - injection Hf as <-. split; [intros []|intros (h & [] & _)].
+    - apply find_leaves_cons in Hf as (y & ys & Hy & Hys & ->). cbn [In]. rewrite (IH ys Hys).
+      split.
+      + intros [<-|(h' & Hh' & Hx)]; [exists h; auto|exists h'; auto].
+      + intros (h' & [<-|Hh'] & Hx); [left; congruence|right; exists h'; auto].
+  Qed.
+
+  Lemma find_leaves_perm lay hs hs' : Permutation hs hs' -> forall ts,
+    find_leaves HO lay hs = Some ts ->
+    exists ts', find_leaves HO lay hs' = Some ts' /\ Permutation ts ts'.
+  Proof.
+    induction 1 as [|h l l' P IH|a b l|l1 l2 l3 P1 IH1 P2 IH2]; intros ts Hf.
+    - exists ts. split; [exact Hf|apply Permutation_refl].
+    - apply find_leaves_cons in Hf as (x & xs & Hx & Hxs & ->).
+      destruct (IH xs Hxs) as (xs' & Hxs' & Pxs). exists (x :: xs'). split.
+      + apply find_leaves_cons. eauto.
+      + apply perm_skip, Pxs.
+    - apply find_leaves_cons in Hf as (x & xs & Hx & Hxs & ->).
+      apply find_leaves_cons in Hxs as (y & ys & Hy & Hys & ->).
+      exists (y :: x :: ys). split; [|apply perm_swap].
+      apply find_leaves_cons. exists y, (x :: ys). split; [exact Hy|]. split; [|reflexivity].
+      apply find_leaves_cons. eauto.
+    - destruct (IH1 ts Hf) as (ts2 & H2 & Q1). destruct (IH2 ts2 H2) as (ts3 & H3 & Q2).
+      exists ts3. split; [exact H3|]. eapply Permutation_trans; eassumption.
+  Qed.
+
+  Lemma find_leaves_NoDup lay hs ts :
+    NoDup hs -> find_leaves HO lay hs = Some ts -> NoDup ts.
+  Proof.
+    intros Hn Hf. apply (NoDup_map_inv (@nhash H)). rewrite (find_leaves_hashes _ _ _ Hf). exact Hn.
+  Qed.
+
+  (** targets sorted by position: a function of the target set when positions are distinct *)
+  Definition npos_inj_on (rows : nat) (l : list node) : Prop :=
+    forall x y, In x l -> In y l -> npos rows x = npos rows y -> x = y.
+
+  Lemma sort_targets_perm rows (ts ts' : list node) :
+    NoDup ts -> Permutation ts ts' -> npos_inj_on rows ts ->
+    sortK (map (fun x => (npos rows x, x)) ts) = sortK (map (fun x => (npos rows x, x)) ts').
+  Proof.
+    intros Hn P Hi. apply sortK_set_unique.
+    - rewrite map_map. cbn [fst]. apply NoDup_map_inj_on; assumption.
+    - rewrite map_map. cbn [fst]. apply NoDup_map_inj_on.
+      + eapply Permutation_NoDup; eassumption.
+      + intros x y Hx Hy. apply Hi; (eapply Permutation_in; [apply Permutation_sym, P|]); assumption.
+    - intros e. rewrite !in_map_iff. pose proof (perm_same_set _ _ P) as Hs.
+      split; intros (c & Hc & Hin); exists c; (split; [exact Hc|apply Hs, Hin]).
+  Qed.
+
+  (** the cached proof of a leaf set does not depend on the order the set is given in:
+      leaf hashes pairwise distinct, positions of the (leaf) nodes of the layout pairwise distinct *)
+  Theorem exp_cached_perm (c : ctx H) (set set' : list H) :
+    Permutation set set' -> NoDup set ->
+    (forall x y, In x (clay c) -> In y (clay c) -> nleaf x = true -> nleaf y = true ->
+                 npos (crows c) x = npos (crows c) y -> x = y) ->
+    exp_cached HO c set = exp_cached HO c set'.
+  Proof.
+    intros P Hn Hi. unfold exp_cached.
+    destruct (find_leaves HO (clay c) set) as [ts|] eqn:E.
+    - destruct (find_leaves_perm (clay c) _ _ P ts E) as (ts' & E' & Pt). rewrite E'.
+      rewrite (sort_targets_perm (crows c) ts ts'); [reflexivity| |exact Pt|].
+      + exact (find_leaves_NoDup _ _ _ Hn E).
+      + intros x y Hx Hy.
+        apply (find_leaves_In _ _ _ E) in Hx as (hx & _ & Hx).
+        apply (find_leaves_In _ _ _ E) in Hy as (hy & _ & Hy).
+        destruct (find_leaf_spec H HO HOK _ _ _ Hx) as (Ax & Bx & _).
+        destruct (find_leaf_spec H HO HOK _ _ _ Hy) as (Ay & By & _).
+        apply Hi; assumption.
+    - destruct (find_leaves HO (clay c) set') as [ts'|] eqn:E'; [|reflexivity].
+      destruct (find_leaves_perm (clay c) _ _ (Permutation_sym P) ts' E') as (ts & Ets & _).
+      congruence.
+  Qed.
+End Canon.
